@@ -22,7 +22,7 @@ INDEX = [B + "state_index", B + "parameter_index", B + "monitor_index", B + "mis
 SCHEMES = [S + "explicit_euler", S + "generalized_rush_larsen", S + "hybrid_rush_larsen"]
 EXPR = [X + "relational_to_piecewise", X + "binary_op", X + "unary_op", X + "build_expression.expr2symbols",
         T + "Conditional", T + "ContinuousConditional"]
-PY_PRINT = [PP + n for n in ("_print_And", "_print_Or", "_print_Not", "_print_sign", "_print_Equality", "_print_Piecewise", "_print_Float")]
+PY_PRINT = [PP + n for n in ("_print_And", "_print_Or", "_print_Not", "_print_sign", "_print_Equality", "_print_Piecewise", "_print_Float", "_print_Mod")]
 ODE_PRINT = [OP + n for n in ("_print_Relational", "_print_And", "_print_Or", "_print_Exp1", "_print_Piecewise")]
 PY_TMPL = [TP + n for n in ("state_index", "parameter_index", "monitor_index", "missing_index", "init_state_values",
                             "init_parameter_values", "method")]
